@@ -66,5 +66,12 @@ def setup():
             t1 = time.time()
             mod.warm("quick")
             print("warm %s %.1fs" % (pid, time.time() - t1), flush=True)
+        if hasattr(mod, "setup_extra"):  # compile the signatures only the command-line flows reach (done once at setup, not on every run)
+            t1 = time.time()
+            try:
+                mod.setup_extra()
+            except BaseException as e:  # noqa
+                print("setup_extra %s raised %s: %s (left to the check)" % (pid, type(e).__name__, str(e)[:200]), flush=True)
+            print("setup_extra %s %.1fs" % (pid, time.time() - t1), flush=True)
     print("setup done in %.1fs, numba cache %s" % (time.time() - t0, os.environ.get("NUMBA_CACHE_DIR")))
     return 0
